@@ -827,6 +827,43 @@ def stateful_primitive_in_match_arm(src):
     return False
 
 
+def top_level_items(src):
+    """(kind, name, text) of the top-level `fn` / `let` items of a source (brace/paren balanced)"""
+    items = []
+    for m in re.finditer(r"(?m)^(fn|let|letrec)\s+([A-Za-z_]\w*)", src):
+        depth, j, seen = 0, m.start(), False
+        while j < len(src):
+            ch = src[j]
+            if ch in "({[":
+                depth += 1
+                seen = seen or ch == "{"
+            elif ch in ")}]":
+                depth -= 1
+            if ch == "\n" and depth == 0 and (m.group(1) != "fn" or seen):
+                break
+            j += 1
+        items.append((m.group(1), m.group(2), src[m.start():j]))
+    return items
+
+
+def stateful_call_at_global_scope(src):
+    """syntactic part of class F28: the initialiser of a top-level `let` calls a function that (transitively) uses self/mem/delay"""
+    items = top_level_items(src)
+    fns = {name: text for kind, name, text in items if kind == "fn"}
+    stateful = {n for n, t in fns.items() if re.search(r"\bself\b|\b(mem|delay)\(", t.split("{", 1)[-1])}
+    changed = True
+    while changed:
+        changed = False
+        for n, t in fns.items():
+            if n not in stateful and any(re.search(r"\b%s\b" % re.escape(sn), t.split("{", 1)[-1]) for sn in stateful):
+                stateful.add(n)
+                changed = True
+    for kind, name, text in items:
+        if kind == "let" and any(re.search(r"\b%s\b" % re.escape(sn), text.split("=", 1)[-1]) for sn in stateful):
+            return True
+    return False
+
+
 REWRITE_CLASSES = [
     # (finding id, syntactic predicate, rewrite)
     ("F24", has_projection_operand, rw_projections),
@@ -1277,14 +1314,16 @@ def run(ck):
             ids = [fid for fid, pred, rw in REWRITE_CLASSES if fid in findings and pred(c["src"])]
             subsets = [[fid] for fid in ids] + ([ids] if len(ids) > 1 else [])
             f26 = "F26" in findings and assigned_captured_local(c["src"])
-            if f26 or ("F21" in findings and uses_missing_builtin(c["src"])):
+            f28 = "F28" in findings and stateful_call_at_global_scope(c["src"])
+            if f26 or f28 or ("F21" in findings and uses_missing_builtin(c["src"])):
                 subsets = [[]] + subsets
             for sub in subsets:
                 src2 = c["src"]
                 for fid, pred, rw in REWRITE_CLASSES:
                     if fid in sub:
                         src2 = rw(src2)
-                c2 = dict(c, src=src2, prog=None, cls=({"F26"} if f26 else set()))   # a non-empty class makes vm_requests add WASM
+                # (a non-empty class makes vm_requests add the WASM backend)
+                c2 = dict(c, src=src2, prog=None, cls=({"F26"} if f26 else set()) | ({"F28"} if f28 else set()))
                 cand.append((i, sub, c2))
         cleared = {}
         if cand:
@@ -1300,8 +1339,11 @@ def run(ck):
                 ids = None
                 if full and V2["st"] == "ok" and R2["samples"] == V2["samples"]:
                     ids = list(sub)
-                elif full and c2["cls"] and W2["st"] == "ok" and R2["samples"] == W2["samples"]:
+                elif full and "F26" in c2["cls"] and W2["st"] == "ok" and R2["samples"] == W2["samples"]:
                     ids = list(sub) + ["F26"]
+                elif full and "F28" in c2["cls"] and V2["st"] == "ok" and W2["st"] == "ok" and V2["samples"] == W2["samples"]:
+                    # both real backends run the global initialiser on dsp's own state storage and agree with each other
+                    ids = list(sub) + ["F28"]
                 else:
                     v2 = judge(dict(c2, cls=set()), R2, V2, W2, None, findings, methods)
                     if v2[0] == "known" and v2[1] == "F21":
@@ -1386,9 +1428,9 @@ def finish(ck):
                      "Context::emit_rust, compiled with rustc and run; clause (a) every accepted program compiles, (b) every output sample equals "
                      "the real VM's bit for bit (first-order programs also against the extracted reference semantics), (c) plugin-dependent "
                      "programs are refused at emit time or by a run-time error naming the external. Failures inside the listed classes "
-                     "(KNOWN_FINDINGS C18: F20 F21 F22 F23 F24 F26 F27) are reported as known findings only when they show the known "
+                     "(KNOWN_FINDINGS C18: F20 F21 F22 F23 F24 F26 F27 F28) are reported as known findings only when they show the known "
                      "symptom (for F23/F24: the failure disappears under the semantics-preserving rewrite of exactly that construct; for F26: "
-                     "generated Rust equals the WASM runtime); anything else is a violation and is shrunk."),
+                     "generated Rust equals the WASM runtime; for F28: VM and WASM agree with each other); anything else is a violation and is shrunk."),
         trusted_base=["rustc 2024 edition (the repo's own recipe: rustc --edition=2024 <generated source + mimium_test_main.rs.template>)",
                       "harness/lang rustgen_run (host: current_time = sample index, sample_rate = 48000, every external refused) and lmmm_run",
                       "lib/lmmm.py generator and pretty-printer; the second generator and the text-level rewrites in checks/C18.py",
